@@ -165,6 +165,7 @@ class Timeline:
         self.script_rc = {}   # (target, pid) -> rc
         self.owner = {}       # script pid -> redo pid
         self.decisions = []
+        self.doomed = set()   # pids that were members of a process group at the moment the harness signalled it
 
     def add(self, kind, target, pid, extra):
         self.ev.append((len(self.ev), kind, target, pid, extra))
@@ -174,7 +175,9 @@ class Timeline:
                     # sound only if the older execution is still alive *now* (then it was alive when the new one
                     # started); a script that was killed leaves no X record
                     st_, _, _, _ = proc_state(p2)
-                    if st_ is None or st_ == "Z":
+                    if st_ is None or st_ == "Z" or p2 in self.doomed:
+                        # (a group signal reaches every member at once: a script that got it is finished even if
+                        # the kernel needs another millisecond to tear it down after its redo parent)
                         self.running.pop(p2, None)
                         self.inwork.pop(p2, None)
                         continue
